@@ -296,8 +296,9 @@ func (r *remoteReplicator) Replica(idx int64, msg []byte) {
 		logger.String("replicator", r.String()),
 		logger.Int64("replicaIdx", resp.ReplicaIndex),
 		logger.Int64("ackIdx", resp.AckIndex))
-	// FIXME: need check resp err
-	if resp.AckIndex == resp.ReplicaIndex {
+	// an answer which carries an error never acks: follower doesn't append the message(for example its partition
+	// is closed, it answers index 0 with the error, that equals the offered index of the first message).
+	if resp.Err == "" && resp.AckIndex == resp.ReplicaIndex {
 		// if ack index = replica, need ack wal
 		r.SetAckIndex(resp.AckIndex)
 		r.statistics.AckSequence.Incr()
